@@ -231,7 +231,7 @@ func (tr *Trans) callFunc(fr *Frame, res ssa.Value, fn *ssa.Function, binds []*V
 	inPkg := tr.eng.inTarget(fn)
 	tr.curBinds = binds
 	defer func() { tr.curBinds = nil }()
-	if inPkg && fn.Signature.Recv() != nil && len(args) > 0 {
+	if inPkg && fn.Signature.Recv() != nil && len(args) > 0 && !(ct != nil && ct.NilRecv) {
 		if _, ok := fn.Signature.Recv().Type().Underlying().(*types.Pointer); ok {
 			tr.assertSafe("(not (= "+tr.expr(args[0])+" 0))", "nil-receiver", pos, "method "+key+" called on nil receiver")
 		}
